@@ -29,6 +29,7 @@ type convSnapOpts struct {
 	// recognisers of listed known findings (narrow masks, see findings/C37.txt)
 	maskEnums   map[string]bool // FK1: enums of this file whose own options carry features
 	maskExtLazy bool            // FK2: IsLazy of extensions whose options say lazy=true
+	maskPacked  map[string]bool // FK3: fields whose options carry both packed and features.repeated_field_encoding
 }
 
 type convSnapper struct {
@@ -127,8 +128,12 @@ func convValue(fd protoreflect.FieldDescriptor, v protoreflect.Value) string {
 
 func (s *convSnapper) field(tag string, fd protoreflect.FieldDescriptor) {
 	s.base(tag, fd)
-	s.add(" num=%d card=%v kind=%v ext=%v weak=%v packed=%v list=%v map=%v presence=%v",
-		fd.Number(), fd.Cardinality(), fd.Kind(), fd.IsExtension(), fd.IsWeak(), fd.IsPacked(), fd.IsList(), fd.IsMap(), fd.HasPresence())
+	packed := fmt.Sprint(fd.IsPacked())
+	if s.o.maskPacked[string(fd.FullName())] {
+		packed = "*"
+	}
+	s.add(" num=%d card=%v kind=%v ext=%v weak=%v packed=%s list=%v map=%v presence=%v",
+		fd.Number(), fd.Cardinality(), fd.Kind(), fd.IsExtension(), fd.IsWeak(), packed, fd.IsList(), fd.IsMap(), fd.HasPresence())
 	s.add(" containingmsg=%s", convMsgRef(fd.ContainingMessage()))
 	if s.o.eagerOnly {
 		return
@@ -156,7 +161,7 @@ func (s *convSnapper) field(tag string, fd protoreflect.FieldDescriptor) {
 	}
 	s.add(" lazy=%s enforceutf8=%s strs.enforceutf8=%v", lazy, eu, strs.EnforceUTF8(fd))
 	s.add(" options=%s", convOptBytes(fd.Options()))
-	if s.o.features {
+	if s.o.features && !s.o.maskPacked[string(fd.FullName())] {
 		switch x := fd.(type) {
 		case *filedesc.Field:
 			s.add(" features=%s", convFeatStr(x.L1.EditionFeatures))
